@@ -411,6 +411,11 @@ def run(tier):
         for e in c.get("params", []):
             want(ext(c, e["name"]) + "_ParameterDefaultValue", e["default"], "@Parameter %s = %s" % (e["name"], e["default"]))
         allv = c.get("mps", []) + c.get("isvs", []) + c.get("aux", []) + c.get("esvs", []) + c.get("params", [])
+        # the temperature is declared implicitly (and removed from the exported list of external state variables), but its bounds - declared
+        # on 'T' or inherited from the glossary once a unit system is given - are part of the metadata like any other
+        if "T" in c["bounds"] or "T" in c["pbounds"] or c["unit"]:
+            c["glossary"].setdefault("T", "Temperature")
+            allv = allv + [{"name": "T", "type": "temperature", "size": 1, "default": None}]
         for e in allv:
             v = e["name"]
             # the name ExternalLibraryManager builds for element i of an array: decomposeVariableName("v[i]") = v_mfront_index_i
@@ -558,4 +563,23 @@ def run(tier):
     rep.assumptions += ["corpus: the three behaviours of corpus/meta and corpus/bounds (one of them with every modelling hypothesis specialised) and the material property of corpus/meta through the generic "
                         "interfaces; other interfaces are not covered", "setParameter versus recompilation is not decided",
                         "shapes are compared up to the entry name prefix; a variable part matches any identifier characters"]
+    # ---- R5 mfront-query prints numbers with the precision they are exported with
+    qd = cfgdump([os.path.join(REPO, "mfront-query/src/mfront-query.cxx")], os.path.join(OUT, "C45", "dumpq"), funcs=r"^main$", root=REPO)
+    qm = [f for f in load_functions(qd) if f.qname == "main" and f.parent is None]
+    if len(qm) != 1:
+        raise AnalysisBroken("main of mfront-query not found")
+    precs = []
+    for n in qm[0].stmts.values():
+        if n["k"] == "CXXMemberCallExpr" and (n.get("callee") or "").endswith("::precision") and n.get("args") and \
+                "cout" in qm[0].text(n.get("obj")):
+            v = qm[0].stmts.get(qm[0].strip(n["args"][0]))
+            if v is not None and v["k"] == "IntegerLiteral":
+                precs.append(int(v["value"]))
+    rep.count("precision settings of mfront-query's output", len(precs))
+    if precs and min(precs) >= 14:
+        rep.ok("mfront-query prints numbers with %d significant digits, the precision of the exported symbols" % min(precs))
+    else:
+        rep.fail("QUERY-PRECISION@mfront-query main", "mfront-query prints default values and bounds with %s significant digits while the generated "
+                 "library exports them with 14: '@Parameter real pa = 1.23456789' is reported as 1.23457, which is not the declared value"
+                 % (min(precs) if precs else "the default 6"))
     return rep
